@@ -13,7 +13,7 @@ from .. import core, corpus, realparse, treeproj
 from ..tok import enc, NONE
 from . import c01
 
-BUDGET_S = 20               # CPU seconds per parse
+BUDGET_S = 60               # CPU seconds per parse (the slowest pumped inputs need about 7)
 WALL_BACKSTOP_S = 600
 
 
